@@ -995,8 +995,13 @@ class Interp:
             bl, bh = st.range(b.aff)
             if base == "Shl" and a.aff.is_const() and bl >= 0 and bh < w:
                 c = a.aff.c
-                r = self.pure_int(st, ("shl", c, b.aff, it), "shl", it, c << bl, min(c << bh, hi))
-                r.origin = ("shl", c, b.aff)
+                sh = b.aff
+                if c > 1 and c & (c - 1) == 0 and bh + c.bit_length() - 1 < w:
+                    # 2^k << x is 1 << (x + k): one normal form, so that equal sizes get the same symbol
+                    k = c.bit_length() - 1
+                    c, sh, bl, bh = 1, b.aff + k, bl + k, bh + k
+                r = self.pure_int(st, ("shl", c, sh, it), "shl", it, c << bl, min(c << bh, hi))
+                r.origin = ("shl", c, sh)
                 return r
             if base == "Shr" and al >= 0:
                 return self.fresh_int(st, "shr", it, 0, ah if ah < INF else None)
